@@ -179,6 +179,20 @@ def translate(path):
     for d in defs: visit(d[0])
     return order
 
+def evaluator(defs):
+    """python evaluation of the translated predicates: f(name, c, excepts=()) -> bool"""
+    by = {d[0]: d for d in defs}
+    def ev(e, c, ex):
+        k = e[0]
+        if k == 'InR': return any(lo <= c <= hi for lo, hi in e[1])
+        if k == 'Or': return ev(e[1], c, ex) or ev(e[2], c, ex)
+        if k == 'And': return ev(e[1], c, ex) and ev(e[2], c, ex)
+        if k == 'Not': return not ev(e[1], c, ex)
+        if k == 'NotIn': return c not in ex
+        if k == 'Call': return ev(by[e[1]][2], c, ex)
+        raise TError('eval ' + k)
+    return lambda name, c, ex=(): ev(by[name][2], c, ex)
+
 def emit(defs, src_path):
     lines = ['(* GENERATED by tools/rs2v/xmlchar.py from %s -- do not edit *)' % src_path,
              'From Coq Require Import List NArith.',
